@@ -3,6 +3,7 @@
 import SmppVerif.Lemmas.PduRead
 import SmppVerif.Lemmas.SpecEncode
 import SmppVerif.Lemmas.Gsm
+import SmppVerif.Lemmas.Time
 
 namespace SmppVerif.Lemmas.SmRead
 open SmppVerif SmppVerif.Pdu SmppVerif.Lemmas.Pdu SmppVerif.Lemmas.PduRead
@@ -366,6 +367,91 @@ theorem sm_round_trip_short (dflt : Enc) (deliver : Bool) (m : Sm) (w : SmRT m) 
   | false => exact key Msg.submitSm (Or.inl rfl) hp
 
 set_option maxRecDepth 8000 in
+/-- ROUND TRIP of submit_sm / deliver_sm without optional parameters, text carried in message_payload
+    (given as payload, or longer than 254 octets and moved there by `pdu()`). -/
+theorem sm_round_trip_payload (dflt : Enc) (deliver : Bool) (m : Sm) (w : SmRT m) (bytes : List Nat) (e : Option Enc)
+    (pbytes ts tv text : List Nat) (enc' : Option Enc) (encD : Enc) (dc : Nat) (schedT validT : Time.TimeObj)
+    (hp : pdu dflt (if deliver then Msg.deliverSm m else Msg.submitSm m) = .ok (bytes, e))
+    (htp : smTextPart dflt m = .ok ([], Gen.Tlv.messagePayload / 256 % 256 :: Gen.Tlv.messagePayload % 256 ::
+      pbytes.length / 256 % 256 :: pbytes.length % 256 :: pbytes, enc'))
+    (hdcv : smDataCoding enc' = .ok dc) (hdc : dc < 256) (hpl : pbytes.length < 65536)
+    (hts : Time.toSmpp m.schedule = .ok ts) (htv : Time.toSmpp m.validity = .ok tv)
+    (hcs : CStrOK ts ∧ CStrOK tv)
+    (hfs : Time.fromSmpp ts = .ok schedT) (hfv : Time.fromSmpp tv = .ok validT)
+    (henc : (if dc = 0 then Except.ok dflt else encOfDataCoding dc) = .ok encD)
+    (hdm0 : decodeMessage m.esmClass.toNat (decodeCodec encD) [] = .ok ([], []))
+    (hdm : decodeMessage m.esmClass.toNat (decodeCodec encD) pbytes = .ok (text, []))
+    (htext : text ≠ []) (hst : enumHas Gen.Enums.smppCommandStatus m.status = true) :
+    decode bytes dflt = .ok (if deliver then Msg.deliverSm (readBack m [] text schedT validT encD)
+                             else Msg.submitSm (readBack m [] text schedT validT encD)) := by
+  have hta : (∀ c ∈ ts, c < 128) ∧ (∀ c ∈ tv, c < 128) :=
+    ⟨fun c hc => (hcs.1 c hc).1, fun c hc => (hcs.2 c hc).1⟩
+  have hlay := layout_eq_mandatory m w.wf [] (Gen.Tlv.messagePayload / 256 % 256 :: Gen.Tlv.messagePayload % 256 ::
+    pbytes.length / 256 % 256 :: pbytes.length % 256 :: pbytes) ts tv dc hdc (by simp) hts htv hta
+  have hbody : smBody dflt m = .ok (mandatory m.serviceType m.source.ton m.source.npi m.source.number m.dest.ton m.dest.npi
+      m.dest.number m.esmClass.toNat m.protocolId.toNat m.priorityFlag.toNat ts tv m.registeredDelivery.toNat
+      m.replaceIfPresent.toNat dc m.smDefaultMsgId.toNat [] (Gen.Tlv.messagePayload / 256 % 256 :: Gen.Tlv.messagePayload % 256 ::
+      pbytes.length / 256 % 256 :: pbytes.length % 256 :: pbytes), enc') := by
+    unfold smBody
+    rw [htp]; simp only
+    rw [hdcv]; simp only
+    have : smParams m = [] := by unfold smParams; rw [w.noParams]; simp
+    rw [this]
+    simp only [List.map_nil, concatM]
+    rw [hlay]
+  have key : ∀ wrap : Sm → Msg, (wrap = Msg.submitSm ∨ wrap = Msg.deliverSm) → smPdu dflt wrap m = .ok (bytes, e) →
+      decode bytes dflt = .ok (wrap (readBack m [] text schedT validT encD)) := by
+    intro wrap hwrap hpdu
+    unfold smPdu at hpdu
+    rw [hbody] at hpdu
+    simp only at hpdu
+    cases hh : packHeader (16 + (mandatory m.serviceType m.source.ton m.source.npi m.source.number m.dest.ton m.dest.npi
+      m.dest.number m.esmClass.toNat m.protocolId.toNat m.priorityFlag.toNat ts tv m.registeredDelivery.toNat
+      m.replaceIfPresent.toNat dc m.smDefaultMsgId.toNat [] (Gen.Tlv.messagePayload / 256 % 256 :: Gen.Tlv.messagePayload % 256 ::
+      pbytes.length / 256 % 256 :: pbytes.length % 256 :: pbytes)).length) (wrap m) with
+    | error x => rw [hh] at hpdu; cases hpdu
+    | ok hd =>
+      rw [hh] at hpdu
+      simp only [Except.map, Except.ok.injEq, Prod.mk.injEq] at hpdu
+      obtain ⟨rfl, _⟩ := hpdu
+      have h16 := (packHeader_spec _ _ hd hh).1
+      have hs := seq_nonneg_of_packHeader _ _ hd hh
+      have hstw : enumHas Gen.Enums.smppCommandStatus (wrap m).status = true := by
+        rcases hwrap with rfl | rfl <;> exact hst
+      have hph := parseHeader_of_packHeader _ (wrap m) hd (mandatory m.serviceType m.source.ton m.source.npi m.source.number
+        m.dest.ton m.dest.npi m.dest.number m.esmClass.toNat m.protocolId.toNat m.priorityFlag.toNat ts tv
+        m.registeredDelivery.toNat m.replaceIfPresent.toNat dc m.smDefaultMsgId.toNat [] (Gen.Tlv.messagePayload / 256 % 256 :: Gen.Tlv.messagePayload % 256 ::
+      pbytes.length / 256 % 256 :: pbytes.length % 256 :: pbytes)) hh hstw
+      unfold decode
+      rw [hph]
+      simp only
+      have hrd := fun (hdr : Header) (hl : hdr.pduLength = (hd ++ mandatory m.serviceType m.source.ton m.source.npi
+          m.source.number m.dest.ton m.dest.npi m.dest.number m.esmClass.toNat m.protocolId.toNat m.priorityFlag.toNat ts tv
+          m.registeredDelivery.toNat m.replaceIfPresent.toNat dc m.smDefaultMsgId.toNat [] (Gen.Tlv.messagePayload / 256 % 256 :: Gen.Tlv.messagePayload % 256 ::
+      pbytes.length / 256 % 256 :: pbytes.length % 256 :: pbytes)).length) =>
+        smFromPdu_payload hd h16 hdr dflt encD
+          m.serviceType m.source.ton m.source.npi m.source.number m.dest.ton m.dest.npi m.dest.number
+          m.esmClass.toNat m.protocolId.toNat m.priorityFlag.toNat ts tv m.registeredDelivery.toNat m.replaceIfPresent.toNat
+          dc m.smDefaultMsgId.toNat pbytes text (Gen.Tlv.messagePayload / 256 % 256) (Gen.Tlv.messagePayload % 256)
+          (pbytes.length / 256 % 256) (pbytes.length % 256) schedT validT
+          ⟨w.svc.1, w.snum, w.dnum, hcs.1, hcs.2, w.ston, w.snpi, w.dton, w.dnpi⟩ henc hdm0 hdm
+          (by decide +kernel) (by omega) hfs hfv w.svc.2 htext hl
+      have hsq : (((wrap m).seq.toNat : Nat) : Int) = m.seq := by
+        rcases hwrap with rfl | rfl <;> exact Int.toNat_of_nonneg hs
+      rcases hwrap with rfl | rfl
+      · simp only [fromPdu, Msg.command]
+        rw [hrd _ (by simp [h16])]
+        simp only [Except.map, readBack, Msg.seq] at hsq ⊢
+        rw [hsq]
+      · simp only [fromPdu, Msg.command]
+        rw [hrd _ (by simp [h16])]
+        simp only [Except.map, readBack, Msg.seq] at hsq ⊢
+        rw [hsq]
+  cases deliver with
+  | true => exact key Msg.deliverSm (Or.inr rfl) hp
+  | false => exact key Msg.submitSm (Or.inl rfl) hp
+
+set_option maxRecDepth 8000 in
 /-- ROUND TRIP, default alphabet GSM 03.38, automatic encoding: every text over the alphabet
     (extension characters included) whose encoding fits short_message (≤ 254 octets), with every
     in-range mandatory field, no scheduling / validity time, no optional parameters.  No hypothesis
@@ -409,5 +495,129 @@ theorem sm_round_trip_gsm (deliver : Bool) (m : Sm) (w : SmRT m) (bytes : List N
   exact sm_round_trip_short encGsm deliver m w bytes e b [] [] m.shortMessage none encGsm 0 .none .none hp htp rfl
     (by decide) (by omega) (by rw [htime.1]; rfl) (by rw [htime.2]; rfl)
     hcs rfl rfl rfl hdm hne hst
+
+open SmppVerif.Lemmas.SpecEncode SmppVerif.Spec.Smpp in
+/-- the message_payload parameter as `pdu()` writes it: tag 0x0424, two-octet length, the octets -/
+theorem payloadTlv_form (enc : List Nat) (h : enc.length < 65536) :
+    concatM [packU 2 ↑Gen.Tlv.messagePayload, packU 2 ↑enc.length, Except.ok enc] =
+      .ok (Gen.Tlv.messagePayload / 256 % 256 :: Gen.Tlv.messagePayload % 256 ::
+           enc.length / 256 % 256 :: enc.length % 256 :: enc) := by
+  rw [packU_nat_be 2 Gen.Tlv.messagePayload (by decide +kernel), packU_nat_be 2 enc.length (by simpa using h)]
+  have := concatM_oks [be 2 Gen.Tlv.messagePayload, be 2 enc.length, enc]
+  simp only [List.map_cons, List.map_nil] at this
+  rw [this]
+  have hr : List.range 2 = [0, 1] := rfl
+  simp [be, hr]
+
+set_option maxRecDepth 8000 in
+/-- ROUND TRIP, default alphabet GSM 03.38, automatic encoding, text given as message_payload: every
+    text over the alphabet up to 65535 octets. -/
+theorem sm_round_trip_gsm_payload (deliver : Bool) (m : Sm) (w : SmRT m) (bytes : List Nat) (e : Option Enc)
+    (hp : pdu encGsm (if deliver then Msg.deliverSm m else Msg.submitSm m) = .ok (bytes, e))
+    (henc : m.encoding = none) (hpre : m.encoded = []) (hshort : m.shortMessage = [])
+    (heh : m.errorHandling = .mode .strict)
+    (htext : Gsm.isGsmText m.messagePayload = true) (hne : m.messagePayload ≠ [])
+    (hlen : ∀ b, Gsm.encode .strict m.messagePayload = .ok b → b.length < 65536)
+    (hudhi : m.esmClass.toNat % 128 < 64)
+    (htime : m.schedule = .none ∧ m.validity = .none)
+    (hst : enumHas Gen.Enums.smppCommandStatus m.status = true) :
+    decode bytes encGsm = .ok (if deliver then Msg.deliverSm (readBack m [] m.messagePayload .none .none encGsm)
+                               else Msg.submitSm (readBack m [] m.messagePayload .none .none encGsm)) := by
+  obtain ⟨b, hb, hd, _⟩ := Lemmas.Gsm.decode_encode m.messagePayload htext
+  have hbl := hlen b hb
+  have hpne : m.messagePayload.isEmpty = false := by
+    cases hm : m.messagePayload with
+    | nil => exact absurd hm hne
+    | cons _ _ => rfl
+  have htp : smTextPart encGsm m = .ok ([], Gen.Tlv.messagePayload / 256 % 256 :: Gen.Tlv.messagePayload % 256 ::
+      b.length / 256 % 256 :: b.length % 256 :: b, none) := by
+    unfold smTextPart
+    rw [hpre, hshort]
+    simp only [List.isEmpty_nil, if_true]
+    unfold smppEncode
+    rw [henc]
+    simp only [if_true, encGsm, codecEncode, heh, hb]
+    rw [if_neg (by simp), if_pos (Or.inr (by simp [hpne])), payloadTlv_form b hbl]
+  have hcodec : decodeCodec encGsm = Codec.gsm := by decide
+  have hdm : decodeMessage m.esmClass.toNat (decodeCodec encGsm) b = .ok (m.messagePayload, []) := by
+    rw [hcodec]
+    unfold decodeMessage
+    rw [if_neg (by omega)]
+    simp only [codecDecode, hd, Except.map]
+  have hdm0 : decodeMessage m.esmClass.toNat (decodeCodec encGsm) [] = .ok ([], []) := by
+    rw [hcodec]
+    unfold decodeMessage
+    rw [if_neg (by omega)]
+    rfl
+  have hnil : CStrOK ([] : List Nat) := by intro c hc; simp at hc
+  exact sm_round_trip_payload encGsm deliver m w bytes e b [] [] m.messagePayload none encGsm 0 .none .none hp htp rfl
+    (by decide) hbl (by rw [htime.1]; rfl) (by rw [htime.2]; rfl) ⟨hnil, hnil⟩ rfl rfl rfl hdm0 hdm hne hst
+
+/-! ### the time fields: what C17 proves is what the round trip needs -/
+
+theorem dec2_ok (n : Nat) (h : n < 100) : CStrOK (Spec.TimeFormat.dec2 n) := by
+  intro c hc
+  simp only [Spec.TimeFormat.dec2, List.mem_cons, List.mem_nil_iff, or_false] at hc
+  rcases hc with rfl | rfl <;> omega
+
+theorem cstr_append {a b : List Nat} (ha : CStrOK a) (hb : CStrOK b) : CStrOK (a ++ b) := by
+  intro c hc
+  rcases List.mem_append.mp hc with h | h
+  · exact ha c h
+  · exact hb c h
+
+open SmppVerif.Time SmppVerif.Lemmas.Time in
+/-- TIME FACTS for an absolute time (2000–2099, quarter-hour offsets, any tenth): the string `pdu()` writes is a
+    C-octet string and reads back to the same instant (C17). -/
+theorem time_facts_abs (d : DateTime) (h : WFabs d) :
+    ∃ ts, toSmpp (.abs d) = .ok ts ∧ CStrOK ts ∧
+      fromSmpp ts = .ok (.abs { d with micro := d.micro / 100000 * 100000, offset := some (d.offset.getD 0) }) := by
+  obtain ⟨s, hs, hf⟩ := abs_round_trip d h
+  refine ⟨s, hs, ?_, hf⟩
+  have hfmt := abs_format d h
+  rw [hs] at hfmt
+  cases hfmt
+  have hmd := monthDays_le d.year d.month
+  have ho : (d.offset.getD 0).natAbs / 900 < 100 := by
+    cases hoo : d.offset with
+    | none => simp
+    | some x => have := h.offset x hoo; simp only [Option.getD_some]; omega
+  unfold Spec.TimeFormat.renderAbs
+  have hy := h.year; have hm := h.month; have hd := h.day
+  refine cstr_append (cstr_append (cstr_append (cstr_append (cstr_append (cstr_append (cstr_append (cstr_append
+    (dec2_ok _ (by omega)) (dec2_ok _ (by omega))) (dec2_ok _ (by omega))) (dec2_ok _ (by have := h.hour; omega)))
+    (dec2_ok _ (by have := h.minute; omega))) (dec2_ok _ (by have := h.second; omega))) ?_) (dec2_ok _ ho)) ?_
+  · intro c hc
+    simp only [List.mem_singleton] at hc
+    have := h.micro
+    subst hc; omega
+  · intro c hc
+    simp only [List.mem_singleton] at hc
+    subst hc
+    split <;> omega
+
+open SmppVerif.Time SmppVerif.Lemmas.Time in
+/-- TIME FACTS for a relative time (up to 63 weeks). -/
+theorem time_facts_rel (t : TimeDelta) (h : WFrel t) :
+    ∃ ts, toSmpp (.rel t) = .ok ts ∧ CStrOK ts ∧ fromSmpp ts = .ok (.rel { t with micros := 0 }) := by
+  obtain ⟨s, hs, hf⟩ := rel_round_trip t h
+  refine ⟨s, hs, ?_, hf⟩
+  have hfmt := rel_format t h
+  rw [hs] at hfmt
+  cases hfmt
+  have hd := h.days; have hsec := h.seconds
+  have hb : t.days * 86400 + (t.seconds : Int) ≤ maxRelSeconds := by
+    have := h.bound
+    unfold relTooLong at this
+    simp only [Bool.or_eq_false_iff, decide_eq_false_iff_not] at this
+    omega
+  unfold maxRelSeconds at hb
+  unfold Spec.TimeFormat.renderRel
+  refine cstr_append (cstr_append (cstr_append (cstr_append (cstr_append (cstr_append
+    (dec2_ok _ (by omega)) (dec2_ok _ (by omega))) (dec2_ok _ (by omega))) (dec2_ok _ (by omega)))
+    (dec2_ok _ (by omega))) (dec2_ok _ (by omega))) ?_
+  intro c hc
+  simp only [List.mem_cons, List.mem_nil_iff, or_false] at hc
+  rcases hc with rfl | rfl | rfl | rfl <;> omega
 
 end SmppVerif.Lemmas.SmRead
